@@ -143,7 +143,7 @@ PROPS["C12"] = dict(level="exploration",
     stages=[dict(name="stream", engine="stream", test="TestVerifStream", batches=dict(quick=8, thorough=16),
                  essential={"C12": ["C12.not-created-at-construction", "C12.creation-gated", "C12.recv-before-send", "C12.recv-waits-during-creation", "C12.recv-released",
                                     "C12.first-message-visible", "C12.sends-in-order", "C12.recv-delegated", "C12.recv-gets-creation-error", "C12.late-recv-reaches-stream",
-                                    "C12.recv-returns-on-context-end", "C12.bystander:before-send", "C12.bystander-delegates", "C12.unary-transparent", "C12.unary-nested-context", "C12.cancel-in-wait-window"]},
+                                    "C12.recv-returns-on-context-end", "C12.bystander:before-send", "C12.bystander-delegates", "C12.unary-transparent", "C12.unary-nested-context", "C12.cancel-in-wait-window", "C12.recv-released-while-send-blocks", "C12.late-recv-after-cancel-reaches-stream"]},
                  timeout=dict(quick=900, thorough=7200))])
 
 GME_ASSUME = ["real gRPC 1.56 client stack over in-process bufconn listeners; outage = dialer refuses + server stopped; reconnect backoff 5-20ms",
